@@ -146,7 +146,7 @@ pub fn run(a: &Args) {
             Range<u32>, RangeInclusive<i16>, RangeFrom<u64>, RangeTo<char>,
             heapless::Vec<u8, 0>, heapless::Vec<u32, 5>, heapless::Vec<(u16, bool), 3>, heapless::String<0>, heapless::String<16>,
             UnitS, NewS, TupS, NamedS, EmptyS, Gen1<u8>, Gen1<char>, Gen1<NamedS>, Nested,
-            E1, E2, Mixed<u8>, Mixed<NamedS>, Mixed<Mixed<u16>>, E127, E128, E129, Option<E2>, [Mixed<u8>; 2], (E1, E128),
+            E1, E2, Mixed<u8>, Mixed<NamedS>, Mixed<Mixed<u16>>, Level, Packet, E127, E128, E129, Option<E2>, [Mixed<u8>; 2], (E1, E128),
         );
     }
     // degenerate tuple shapes named in the property: arity 0 and 1, zero-field tuple forms
